@@ -143,10 +143,10 @@ Proof.
 Qed.
 
 Lemma fetched_idem x s : fetched (fetched x s) s = fetched x s.
-Proof. unfold fetched; cbn [g have tip revno tags conf locked]. rewrite merge_idem. reflexivity. Qed.
+Proof. unfold fetched; cbn [g have tip revno tags conf locked rlocked knit signed]. rewrite merge_idem. reflexivity. Qed.
 
 Lemma fetched_set_tip_idem x s n : fetched (set_tip (fetched x s) s n) s = set_tip (fetched x s) s n.
-Proof. unfold set_tip, fetched; cbn [g have tip revno tags conf locked]. rewrite merge_idem. reflexivity. Qed.
+Proof. unfold set_tip, fetched; cbn [g have tip revno tags conf locked rlocked knit signed]. rewrite merge_idem. reflexivity. Qed.
 
 (* ---- tags and config: what is set is what is read ---- *)
 
@@ -166,6 +166,41 @@ Theorem set_conf_read c x o v old ob x' :
 Proof.
   intros L H. unfold step in H. cbn in H. rewrite L in H. cbn in H. injection H as <- <-. cbn.
   repeat split; try reflexivity; [apply aget_ains_same | intros; apply aget_ains_other; assumption].
+Qed.
+
+Lemma locked_refuses_pre c x o :
+  locked x = true -> mutating o = true -> step c x o = (OE "LockContention"%string, x).
+Proof. intros L M. unfold step. rewrite L, M. reflexivity. Qed.
+
+(* ---- signatures: several sign_revision calls in one write group all end up stored ---- *)
+
+Theorem sign_stores_all c x rs ob x' :
+  rlocked x = false -> (knit x = false \/ remote c = false \/ vfs c = true) ->
+  all_present (have x) rs = true ->
+  step c x (Sign rs) = (ob, x') ->
+  ob = OT "ok"%string /\
+  (forall r, r < length (g x) -> memb r (signed x') = memb r (signed x) || memb r rs) /\
+  have x' = have x /\ tip x' = tip x /\ locked x' = locked x /\ rlocked x' = false.
+Proof.
+  intros L V A H. unfold step in H. cbn [mutating andb needs_vfs] in H. rewrite L, A in H.
+  assert (E : knit x && remote c && negb (vfs c) = false).
+  { destruct V as [-> | [-> | ->]]; [reflexivity | | ].
+    - rewrite andb_false_r. reflexivity.
+    - apply andb_false_r. }
+  rewrite E in H. injection H as <- <-. cbn [signed have tip locked rlocked with_signed].
+  repeat split; try reflexivity; [|exact L].
+  intros r Hr. rewrite memb_merge. apply Nat.ltb_lt in Hr. rewrite Hr, andb_true_r. reflexivity.
+Qed.
+
+(* a branch lock left behind (repository free) refuses every branch write and leaves the
+   repository free: nothing else becomes locked by a failed attempt *)
+Theorem stale_lock_refusals_leave_repository_free c x o r x1 ob x2 :
+  locked x = false -> step c x StaleLock = (r, x1) -> mutating o = true -> step c x1 o = (ob, x2) ->
+  ob = OE "LockContention"%string /\ x2 = x1 /\ rlocked x2 = false /\ locked x2 = true.
+Proof.
+  intros L H M H2. unfold step in H. cbn [mutating andb needs_vfs] in H. rewrite L in H. cbn in H.
+  injection H as _ <-. rewrite (locked_refuses_pre c (with_locks x true false) o (eq_refl true) M) in H2. injection H2 as <- <-.
+  repeat split; reflexivity.
 Qed.
 
 (* ---- commit ---- *)
@@ -251,6 +286,7 @@ Proof.
   destruct o; cbn [snd]; try exact C.
   - apply update_consistent; exact C.
   - apply update_consistent; exact C.
+  - destruct (rlocked x); exact C.
   - (* Commit *)
     unfold next_fresh. destruct (fresh_next (g x)) eqn:F; [|exact C]. cbn [snd].
     destruct C as [W H]. unfold consistent; cbn [g tip revno].
@@ -275,6 +311,9 @@ Proof.
     destruct (memb r (have x)); [|exact C].
     destruct (distance_to_null (g x) r) as [n|] eqn:E; [|exact C].
     apply consistent_set_tip; [exact (proj1 C) | exact E].
+  - (* Sign *)
+    destruct (rlocked x); [exact C|]. destruct (knit x && remote c && negb (vfs c)); [exact C|].
+    destruct (all_present (have x) rs); [exact C|]. destruct (knit x); exact C.
 Qed.
 
 Theorem run_consistent c : forall ops x, consistent x -> consistent (final c x ops).
@@ -284,17 +323,22 @@ Qed.
 
 (* ---- refused calls ---- *)
 
-(* the only failing call that leaves a trace in the store is a diverged push/pull: the
-   revisions were fetched before the check (that is what the code does, locally too) *)
+(* the only failing calls that leave a trace in the store are a diverged push/pull (the
+   revisions were fetched before the check -- that is what the code does, locally too) and a
+   failing Sign on a knit-family repository (no transactional write group: the signatures made
+   before the failure stay) *)
 Theorem refused_changes_nothing c x o e x' :
   step c x o = (OE e, x') ->
-  x' = x \/ (exists s ow, (o = Push s ow \/ o = Pull s ow) /\ x' = fetched x s).
+  x' = x \/ (exists s ow, (o = Push s ow \/ o = Pull s ow) /\ x' = fetched x s)
+  \/ (exists rs, o = Sign rs /\ knit x = true /\
+                 x' = with_signed x (merge_have (g x) (signed x) (present_prefix (have x) rs))).
 Proof.
   unfold step. destruct (mutating o && locked x); [intros [= _ <-]; left; reflexivity|].
   destruct (needs_vfs o && remote c && negb (vfs c)); [intros [= _ <-]; left; reflexivity|].
   destruct o; try (intros [= _ <-]; left; reflexivity); try discriminate.
-  - unfold update. destruct (decide x s ow); try discriminate; intros [= _ <-]; right; exists s, ow; auto.
-  - unfold update. destruct (decide x s ow); try discriminate; intros [= _ <-]; right; exists s, ow; auto.
+  - unfold update. destruct (decide x s ow); try discriminate; intros [= _ <-]; right; left; exists s, ow; auto.
+  - unfold update. destruct (decide x s ow); try discriminate; intros [= _ <-]; right; left; exists s, ow; auto.
+  - destruct (rlocked x); [intros [= _ <-]; left; reflexivity | discriminate].
   - unfold next_fresh. destruct (fresh_next (g x)); [discriminate | intros [= _ <-]; left; reflexivity].
   - destruct (aget t (tags x)); [discriminate | intros [= _ <-]; left; reflexivity].
   - destruct (locked x); discriminate.
@@ -303,6 +347,10 @@ Proof.
   - destruct (memb r (have x)); [discriminate | intros [= _ <-]; left; reflexivity].
   - destruct (memb r (have x)); [|intros [= _ <-]; left; reflexivity].
     destruct (distance_to_null (g x) r); [discriminate | intros [= _ <-]; left; reflexivity].
+  - destruct (rlocked x); [intros [= _ <-]; left; reflexivity|].
+    destruct (knit x && remote c && negb (vfs c)); [intros [= _ <-]; left; reflexivity|].
+    destruct (all_present (have x) rs); [discriminate|].
+    destruct (knit x) eqn:K; intros [= _ <-]; [right; right; exists rs; auto | left; reflexivity].
 Qed.
 
 Theorem locked_refuses c x o :
@@ -357,7 +405,11 @@ Qed.
 
 (* ---- independence from the access path ---- *)
 
-Definition vfs_free (ops : list op) : bool := forallb (fun o => negb (needs_vfs o)) ops.
+(* operations whose outcome can depend on the VFS switch: the two VFS-only ones, and Sign (on a
+   knit-family repository the write group needs VFS; guarded coarsely, for every format) *)
+Definition vfs_sensitive (o : op) : bool :=
+  needs_vfs o || match o with Sign _ => true | _ => false end.
+Definition vfs_free (ops : list op) : bool := forallb (fun o => negb (vfs_sensitive o)) ops.
 
 (* the places where the remote path is known to answer differently (known findings) *)
 Definition quirk (o : op) : bool :=
@@ -368,9 +420,9 @@ Definition quirk (o : op) : bool :=
   end.
 Definition quirk_free (ops : list op) : bool := forallb (fun o => negb (quirk o)) ops.
 
-Lemma step_vfs_irrelevant x o : needs_vfs o = false ->
+Lemma step_vfs_irrelevant x o : vfs_sensitive o = false ->
   step cfg_novfs x o = step cfg_vfs x o.
-Proof. intros N. unfold step. rewrite N. cbn. destruct o; try discriminate; reflexivity. Qed.
+Proof. intros N. unfold step. destruct o; try discriminate; reflexivity. Qed.
 
 Theorem novfs_agrees_guarded : forall ops x, vfs_free ops = true ->
   run cfg_novfs x ops = run cfg_vfs x ops.
@@ -414,5 +466,5 @@ Qed.
 Theorem modes_agree_refuted :
   exists x ops, run cfg_vfs x ops <> run cfg_local x ops.
 Proof.
-  exists (init_state [[]; [0]] (Some 1)), [ParentMap [None; Some 1]]. vm_compute. discriminate.
+  exists (init_state [[]; [0]] (Some 1) false), [ParentMap [None; Some 1]]. vm_compute. discriminate.
 Qed.
